@@ -209,6 +209,13 @@ func enumerateTreeFaults(text string) []treeFault {
 					emit(p, a.name, applyAt(root, p, a.v, false))
 				}
 			}
+			// names nobody validated: not ASCII (bytes and characters differ in number), very long, with the
+			// characters that paths, selectors and formats give a meaning to
+			if c12Full || strings.Contains(lp, "name") {
+				for _, a := range []alt{{"value:utf8", "w\u00f6rkload-\u540d\u524d-\u00fcn\u00ef"}, {"value:long", strings.Repeat("x", 300)}, {"value:odd", "a b/c%d\t\"q\",[x]"}} {
+					emit(p, a.name, applyAt(root, p, a.v, false))
+				}
+			}
 		}
 	}
 	return res
